@@ -44,7 +44,7 @@ type (
 	LenOf   struct{ pl *Place; emptyNull bool }
 	KeysOf  struct{ pl *Place }
 	LoopIdx struct{ loop *Loop }
-	MakeV   struct{ typ types.Type; size SVal }
+	MakeV   struct{ typ types.Type; size SVal; pos string }
 	Pending struct {
 		node *Node
 		conv string
@@ -63,6 +63,7 @@ type ArrCtx struct {
 	countVar types.Object
 	classes  [3]*Class
 	made     map[string]SVal // key(place) -> size argument
+	makePos  map[string]string
 	started  bool
 	level    *[]*Node
 	coll     *Place // enc: the collection whose length was written
@@ -445,7 +446,7 @@ func (w *W) evalCall(c *ast.CallExpr) SVal {
 						size = nil
 					}
 				}
-				return MakeV{typ: t, size: size}
+				return MakeV{typ: t, size: size, pos: w.g.pkg.pos(c)}
 			case "append":
 				return w.opaqueOf("append", c.Args...)
 			}
